@@ -23,6 +23,99 @@ theorem C18_probe_keeps_scratch_fresh (w : Word) (h : (En.apply w DS.new).1.isNo
   | none => rw [hr] at h; cases h
   | some e => exact C07.C07_apply_atomic_en w DS.new e hr
 
+/-- is a neighbour (nearest significant token before / after position `j`) a number word? -/
+def numNeighbour (sig : List Nat) (j : Nat) (toks : List Tok) : Bool :=
+  (decide (j > 0) && NumberWord (lowerAt toks (sig.getD (j - 1) 0))) ||
+  (decide (j + 1 < sig.length) && NumberWord (lowerAt toks (sig.getD (j + 1) 0)))
+
+theorem probe_fresh (w : Word) :
+    probe En.apply w DS.new = (NumberWord w, if NumberWord w then (En.apply w DS.new).2 else DS.new) := by
+  unfold probe NumberWord
+  cases hr : (En.apply w DS.new).1.isNone with
+  | true => simp [hr]
+  | false =>
+    have := C18_probe_keeps_scratch_fresh w hr
+    simp [hr, this]
+
+/-- **the decision**: starting from a fresh scratch builder, the `o` at significant position `j` is
+accepted as a number exactly when the nearest significant token before it or after it is a number word;
+when it is rejected the scratch builder is fresh again. -/
+theorem C18_decision (sig : List Nat) (j : Nat) (toks : List Tok) :
+    (enDecide En.apply sig j toks DS.new).1 = numNeighbour sig j toks ∧
+    ((enDecide En.apply sig j toks DS.new).1 = false → (enDecide En.apply sig j toks DS.new).2 = DS.new) := by
+  unfold enDecide numNeighbour
+  generalize lowerAt toks (sig.getD (j - 1) 0) = wp
+  generalize lowerAt toks (sig.getD (j + 1) 0) = wn
+  by_cases hj : j > 0
+  · rw [if_pos hj, probe_fresh]
+    cases hp : NumberWord wp with
+    | true => simp [hj]
+    | false =>
+      simp only [Bool.false_eq_true, if_false, decide_eq_true hj, Bool.and_false, Bool.false_or, Bool.true_and]
+      by_cases hn : j + 1 < sig.length
+      · rw [if_pos hn, probe_fresh]
+        cases hq : NumberWord wn with
+        | true => simp [hn]
+        | false => simp [hn]
+      · rw [if_neg hn]; simp [hn]
+  · rw [if_neg hj]
+    simp only [Bool.false_eq_true, if_false, decide_eq_false hj, Bool.false_and, Bool.false_or]
+    by_cases hn : j + 1 < sig.length
+    · rw [if_pos hn, probe_fresh]
+      cases hq : NumberWord wn with
+      | true => simp [hn]
+      | false => simp [hn]
+    · rw [if_neg hn]; simp [hn]
+
+/-- the pass as a specification, without any scratch state: every `o` whose neighbours are not number
+words is marked "not a number part"; nothing else is touched -/
+def specLoop (sig : List Nat) : List Nat → Nat → List Tok → List Tok
+  | [], _, toks => toks
+  | i :: rest, j, toks =>
+    if lowerAt toks i == ['o'] && !(numNeighbour sig j toks) then specLoop sig rest (j + 1) (setNan toks i)
+    else specLoop sig rest (j + 1) toks
+
+/-- **C18 (neighbour rule)**: the English annotation pass — which threads one scratch `DigitString`
+through all its probes — computes exactly the stateless specification, for every token list. -/
+theorem C18_annotate_is_spec (sig rest : List Nat) (j : Nat) (toks : List Tok) :
+    annotateEnLoop En.apply sig rest j DS.new toks = specLoop sig rest j toks := by
+  induction rest generalizing j toks with
+  | nil => rfl
+  | cons i rest ih =>
+    unfold annotateEnLoop specLoop
+    by_cases ho : (lowerAt toks i == ['o']) = true
+    · rw [if_pos ho]
+      obtain ⟨h1, h2⟩ := C18_decision sig j toks
+      by_cases hd : numNeighbour sig j toks = true
+      · have : (enDecide En.apply sig j toks DS.new).1 = true := by rw [h1]; exact hd
+        simp only [this, if_true, ho, hd, Bool.not_true, Bool.and_false, Bool.false_eq_true, if_false]
+        exact ih (j + 1) toks
+      · have hd' : numNeighbour sig j toks = false := by simpa using hd
+        have h3 : (enDecide En.apply sig j toks DS.new).1 = false := by rw [h1]; exact hd'
+        simp only [h3, Bool.false_eq_true, if_false, ho, hd', Bool.not_false, Bool.and_self, if_true]
+        rw [h2 h3]
+        exact ih (j + 1) (setNan toks i)
+    · rw [if_neg ho]
+      have ho' : (lowerAt toks i == ['o']) = false := by simpa using ho
+      simp only [ho', Bool.false_and, Bool.false_eq_true, if_false]
+      exact ih (j + 1) toks
+
+theorem C18_annotateEn_is_spec (cc : CharClasses) (toks : List Tok) :
+    annotateEn cc En.apply toks =
+      specLoop (indicesWhere (fun t => !(t.lower.all cc.isWhitespace)) toks)
+        (indicesWhere (fun t => !(t.lower.all cc.isWhitespace)) toks) 0 toks := by
+  unfold annotateEn
+  exact C18_annotate_is_spec _ _ 0 toks
+
+/-- marking a token does not change any lowercase text, so later decisions are unaffected by earlier ones -/
+theorem lowerAt_setNan (toks : List Tok) (k i : Nat) : lowerAt (setNan toks k) i = lowerAt toks i := by
+  unfold lowerAt setNan
+  simp only [List.getD_eq_getElem?_getD, List.getElem?_modify]
+  by_cases h : k = i
+  · subst h
+    cases toks[k]? <;> simp
+  · simp [h]
+
 /-- tokens other than `o` are never touched by the pass -/
 theorem C18_other_untouched (sig : List Nat) (i : Nat) (rest : List Nat) (j : Nat) (b : DS) (toks : List Tok)
     (ho : lowerAt toks i ≠ ['o']) :
